@@ -77,5 +77,16 @@ theorem get_some_mem {m : FMap κ α} {k : κ} {v : α} (h : get m k = some v) :
     · simp [get, h1] at h; simp [h1, h]
     · simp [get, h1] at h; simp [ih h]
 
+theorem has_eq_isSome (m : FMap κ α) (k : κ) : has m k = (get m k).isSome := rfl
+
+/-- `get` through a key-preserving `List.map`. -/
+theorem get_map_val {β : Type} (m : FMap κ α) (f : α → β) (k : κ) :
+    get (m.map (fun p => (p.1, f p.2)) : FMap κ β) k = (get m k).map f := by
+  induction m with
+  | nil => rfl
+  | cons p r ih =>
+    obtain ⟨k', v'⟩ := p
+    by_cases h : k' = k <;> simp [get, h, ih]
+
 end FMap
 end Gca
